@@ -106,8 +106,10 @@ func VerifC06_Slots() {
 // VerifC06_Loop: a slot inside a loop is filled once per iteration with that
 // iteration's props; a component nested in a component keeps its own slots.
 func VerifC06_Loop() {
-	mode := zzChoice("mode", 8)
+	mode := zzChoice("mode", 10)
 	var body, want string
+	var opts []LoadOption
+	fsys := zzC06FS()
 	data := map[string]any{"outer": "OUT", "items": []string{"a", "b"}, "nv": 9}
 	switch mode {
 	case 0: // scoped by name
@@ -217,11 +219,20 @@ func VerifC06_Loop() {
 	case 7: // a slot used twice gets the same content twice (bound props keep their bindings and types)
 		body = `<template include="twice.vuego"><template include="leaf.vuego" :p="nv"></template><b :title="outer">{{ nv + 1 }}</b></template>`
 		want = `<section><em>10</em><b title="OUT">10</b><i>+</i><em>10</em><b title="OUT">10</b></section>`
+	case 8, 9: // supplied content that itself uses a registered shorthand component tag
+		fsys.files["components/my-badge.vuego"] = `<span class="badge"><slot>new</slot></span>`
+		opts = []LoadOption{WithComponents()}
+		if mode == 8 {
+			body = `<template include="card.vuego"><template #h><my-badge>Hot</my-badge></template><my-badge></my-badge></template>`
+		} else {
+			body = `<template include="card.vuego"><template v-slot:h><my-badge>Hot</my-badge></template><template v-slot><my-badge></my-badge></template></template>`
+		}
+		want = `<div class="card"><header><span class="badge">Hot</span></header><main><span class="badge">new</span></main><footer>FB-F</footer></div>`
 	case 3: // nested component, nothing supplied to the wrapper
 		body = `<template include="wrap.vuego"></template>`
 		want = `<section class="wrap"><div class="card"><header>INNER-H</header><main>FB-D</main><footer>FB-F</footer></div>FB-WRAP</section>`
 	}
-	out, err := zzRenderVia(zzEntry(), zzC06FS(), nil, body, data)
+	out, err := zzRenderVia(zzEntry(), fsys, opts, body, data)
 	flat := zzFlat(out)
 	zzNote("template", body)
 	zzNote("out", flat)
